@@ -204,6 +204,11 @@ func c38Render(c *c38Case, fields [][]byte) (raw []byte, incomplete bool, err er
 				fs[i] = []byte{0xfd, 0xff, 0xff, 0xff}
 			case "w8":
 				fs[i] = []byte{0xfe, 0xff, 0xff, 0xff, 0xff, 0xff, 0xff, 0xff, 0xff}
+			case "w8p32", "w8p47", "w8p63":
+				v := map[string]uint64{"w8p32": 1 << 32, "w8p47": 1 << 47, "w8p63": 1<<63 - 1}[o.Variant]
+				fs[i] = make([]byte, 9)
+				fs[i][0] = 0xfe
+				binary.LittleEndian.PutUint64(fs[i][1:], v)
 			default:
 				return nil, false, fmt.Errorf("unknown oversize variant %q", o.Variant)
 			}
